@@ -27,6 +27,9 @@ type Engine struct {
 	Notes    map[string]bool // assumptions / dropped constructs collected while generating
 	Prelude  *Prelude
 	Findings []Finding
+
+	constGlobals  map[*ssa.Global]bool
+	storedGlobals map[*ssa.Global]bool
 }
 
 func relPkg(path string) string {
@@ -176,7 +179,48 @@ func Load(repo, verif string, pkgPaths []string) (*Engine, error) {
 			}
 		}
 	}
-	pre, err := LoadPrelude(filepath.Join(verif, "specs"))
+	// generated declarations: tag constants, boxing constructors and projections of every tagged type
+	var auto strings.Builder
+	groups := map[string][]string{}
+	for i, t := range e.TagTypes {
+		tn := typeName(t)
+		fmt.Fprintf(&auto, "(define-fun tag.%s () Int %d)\n", tn, i+1)
+		sorts := sortsOf(t)
+		names := leafNames(t)
+		fmt.Fprintf(&auto, "(declare-fun mk.%s (%s) Val)\n", tn, strings.Join(sorts, " "))
+		var projs, bvs, bnames []string
+		for j, s := range sorts {
+			p := fmt.Sprintf("pj.%s.%d", tn, j)
+			if names[j] != "" {
+				p += "." + names[j]
+			}
+			fmt.Fprintf(&auto, "(declare-fun %s (Val) %s)\n", p, s)
+			projs = append(projs, p)
+			groups[p] = []string{"mk." + tn, "tag." + tn}
+			groups["mk."+tn] = append(groups["mk."+tn], p)
+			bvs = append(bvs, fmt.Sprintf("(l%d %s)", j, s))
+			bnames = append(bnames, fmt.Sprintf("l%d", j))
+		}
+		// boxing axioms: projections invert the constructor; a value of this tag is its constructor applied to its projections
+		if len(sorts) == 0 {
+			fmt.Fprintf(&auto, "(assert (= (tagof mk.%s) tag.%s))\n", tn, tn)
+			fmt.Fprintf(&auto, "(assert (forall ((v Val)) (! (=> (= (tagof v) tag.%s) (= v mk.%s)) :pattern ((tagof v)))))\n", tn, tn)
+			continue
+		}
+		mk := fmt.Sprintf("(mk.%s %s)", tn, strings.Join(bnames, " "))
+		var conj []string
+		conj = append(conj, fmt.Sprintf("(= (tagof %s) tag.%s)", mk, tn))
+		for j, p := range projs {
+			conj = append(conj, fmt.Sprintf("(= (%s %s) l%d)", p, mk, j))
+		}
+		fmt.Fprintf(&auto, "(assert (forall (%s) (! (and %s) :pattern (%s))))\n", strings.Join(bvs, " "), strings.Join(conj, " "), mk)
+		var pv []string
+		for _, p := range projs {
+			pv = append(pv, fmt.Sprintf("(%s v)", p))
+		}
+		fmt.Fprintf(&auto, "(assert (forall ((v Val)) (! (=> (= (tagof v) tag.%s) (= v (mk.%s %s))) :pattern (%s))))\n", tn, tn, strings.Join(pv, " "), pv[0])
+	}
+	pre, err := LoadPrelude(filepath.Join(verif, "specs"), auto.String(), groups)
 	if err != nil {
 		return nil, err
 	}
@@ -198,6 +242,29 @@ func (e *Engine) tagOf(t types.Type) int {
 }
 
 func (e *Engine) note(s string) { e.Notes[s] = true }
+
+// globalIsConstant: no function other than the package initialiser stores to the global.
+func (e *Engine) globalIsConstant(g *ssa.Global) bool {
+	if e.constGlobals == nil {
+		e.constGlobals = map[*ssa.Global]bool{}
+		e.storedGlobals = map[*ssa.Global]bool{}
+		for _, fn := range e.Funcs {
+			if fn.Name() == "init" || strings.HasPrefix(fn.Name(), "init#") {
+				continue
+			}
+			for _, b := range fn.Blocks {
+				for _, in := range b.Instrs {
+					if s, ok := in.(*ssa.Store); ok {
+						if gg, ok := s.Addr.(*ssa.Global); ok {
+							e.storedGlobals[gg] = true
+						}
+					}
+				}
+			}
+		}
+	}
+	return !e.storedGlobals[g]
+}
 
 // resolveType finds a named type from a spec-language type name like "rel.String" or "*rel.GenericTuple".
 func (e *Engine) resolveType(name, defPkg string) (types.Type, error) {
